@@ -510,6 +510,8 @@ type smodel struct {
 	nondup  map[string]int  // QoS 2 payload -> non-duplicate PUBLISH transmissions
 	qos2    map[string]bool
 	afterRe []string
+
+	reuseReported bool
 }
 
 func newModel(b *bh.Broker, fail func(string, string)) *smodel {
@@ -534,6 +536,13 @@ func (m *smodel) replay() {
 					continue
 				}
 				pl := string(v.Message.Payload)
+				// a packet id identifies one unacknowledged message: the session
+				// records packets by id, so a second message sent under an id that
+				// is still in flight displaces the first one's record
+				if cur, ok := m.out[v.ID]; ok && cur.payload != pl && !m.reuseReported {
+					m.reuseReported = true
+					m.fail("packet-id-reused-in-flight", fmt.Sprintf("the broker sent message %s with packet id %d while %s of message %s under the same id was still unacknowledged", pl, v.ID, cur.kind, cur.payload))
+				}
 				m.out[v.ID] = outEntry{"publish", pl}
 				if v.Message.QOS == 2 {
 					m.qos2[pl] = true
@@ -546,6 +555,10 @@ func (m *smodel) replay() {
 				}
 			case *packet.Pubrel:
 				m.out[v.ID] = outEntry{"pubrel", m.out[v.ID].payload}
+			case *packet.Connack:
+				if !v.SessionPresent {
+					m.out = map[packet.ID]outEntry{} // a fresh session has nothing in flight
+				}
 			}
 		case "log:packet received":
 			switch v := e.Pkt.(type) {
